@@ -82,14 +82,49 @@ def compatible_states(kind, motifs, motif):
 # --------------------------------------------------------------------------
 # random problems
 # --------------------------------------------------------------------------
-def rand_tree(rng, ntips, unary=False):
+# tip / internal-node name families in which names are proper prefixes, suffixes and substrings of each
+# other (a lookup by startswith / endswith / `in` instead of equality must show up as a wrong likelihood)
+TIP_FAMILIES = [
+    ["t1", "t10", "t100", "t", "1t", "t11", "t01", "10t"],
+    ["a", "ab", "abc", "b", "ba", "abcd", "c", "bc"],
+    ["x1", "1x", "01", "10", "x", "x10", "1", "x1x"],
+    ["Hum", "Human", "Hu", "man", "uma", "HumanB", "Humans", "H"],
+]
+NODE_FAMILIES = [["e", "e1", "e10", "e100", "e2", "1e", "e11"], ["n", "nn", "n0", "n00", "0n", "nn0", "n1"]]
+TINY = [1e-6, 1e-8, 5e-9, 1e-9, 1e-12]
+
+
+def rand_length(rng, zero_ok=True):
+    r = rng.random()
+    if r < 0.05:
+        return 0.0 if zero_ok else rng.choice(TINY)
+    if r < 0.15:
+        return rng.choice(TINY)  # strictly positive but tiny: must be used as given
+    if r < 0.25:
+        return round(rng.uniform(1.0, 3.0), 4)
+    return round(10 ** rng.uniform(-2.3, 0.0), 5)
+
+
+def rand_tree(rng, ntips, unary=False, root_deg=None, zero_ok=True):
     """nested dict tree {name, len, children}; root has >= 2 children; polytomies allowed"""
-    tips = [dict(name=f"t{i}", len=None, children=[]) for i in range(ntips)]
+    fam = rng.choice(TIP_FAMILIES)
+    if ntips > len(fam):
+        tnames = [f"t{i}" for i in range(ntips)]
+    elif rng.random() < 0.6 and ntips >= 2:
+        # make sure at least one prefix pair is present
+        tnames = fam[:2] + rng.sample(fam[2:], ntips - 2)
+    else:
+        tnames = rng.sample(fam, ntips)
+    rng.shuffle(tnames)
+    inames = list(rng.choice(NODE_FAMILIES))
+    rng.shuffle(inames)
+    tips = [dict(name=tnames[i], len=None, children=[]) for i in range(ntips)]
     rng.shuffle(tips)
     nodes = tips
     k = 0
     # agglomerate random groups until few enough remain for the root
-    root_deg = rng.choice([2, 3, 3, 3, 4]) if ntips > 3 else rng.choice([2, 3])
+    if root_deg is None:
+        root_deg = rng.choice([2, 3, 3, 3, 4]) if ntips > 3 else rng.choice([2, 3])
     root_deg = min(root_deg, ntips)
     while len(nodes) > root_deg:
         g = rng.choice([2, 2, 2, 3, 4])
@@ -97,19 +132,14 @@ def rand_tree(rng, ntips, unary=False):
         if g < 2:
             break
         grp = [nodes.pop(rng.randrange(len(nodes))) for _ in range(g)]
-        nodes.append(dict(name=f"n{k}", len=None, children=grp))
+        nodes.append(dict(name=inames[k] if k < len(inames) else f"n{k}x", len=None, children=grp))
         k += 1
+    rng.shuffle(nodes)
     root = dict(name="root", len=None, children=nodes)
 
     def setlen(n):
         for c in n["children"]:
-            r = rng.random()
-            if r < 0.05:
-                c["len"] = 0.0
-            elif r < 0.15:
-                c["len"] = round(rng.uniform(1.0, 3.0), 4)
-            else:
-                c["len"] = round(10 ** rng.uniform(-2.3, 0.0), 5)
+            c["len"] = rand_length(rng, zero_ok)
             setlen(c)
 
     setlen(root)
@@ -216,12 +246,13 @@ def rand_mprobs(rng, motifs):
     return {m: x / s for m, x in zip(motifs, w)}
 
 
-def rand_problem(rng, name, ntips=None, ncols=None, bins=None, new_type=None, scoped=None, unary=False):
+def rand_problem(rng, name, ntips=None, ncols=None, bins=None, new_type=None, scoped=None, unary=False, root_deg=None,
+                 zero_ok=True):
     """a JSON-able description of one likelihood-function problem"""
     kind = kind_of(name)
     if ntips is None:
         ntips = rng.randint(3, 7) if kind in ("nucleotide", "dinucleotide") else rng.randint(3, 5)
-    tree = rand_tree(rng, ntips, unary=unary)
+    tree = rand_tree(rng, ntips, unary=unary, root_deg=root_deg, zero_ok=zero_ok)
     sm = get_sm(name)
     motifs = [str(m) for m in sm.get_alphabet()]
     if ncols is None:
